@@ -58,7 +58,10 @@ pub fn run(ctx: &Ctx) -> (Report, String) {
     if ctx.is_main() {
         rep.require("pictures_compared", if ctx.tier == Tier::Quick { 250_000 } else { 4_000_000 } * ctx.scale_pct / 100);
         rep.require("cases_with_history", 1000 * ctx.scale_pct / 100);
+        rep.require("std_intra_pictures_with_header_modes", 1000 * ctx.scale_pct / 100);
         rep.require("chunked_source_cases", 1000 * ctx.scale_pct / 100);
+        rep.require("calls_repeated_after_transient_source_error", 1000 * ctx.scale_pct / 100);
+        rep.require("calls_repeated_after_late_delivery", 1000 * ctx.scale_pct / 100);
         for k in ["flavour=sorenson-v0", "flavour=sorenson-v1", "flavour=std-plusptype", "shape=first-row", "shape=first-col", "shape=dense", "shape=last63", "shape=dc-only", "esc=Esc7", "esc=Esc8", "esc=Esc11", "esc=Short", "kind=INTRA+Q"] {
             rep.require(k, 50);
         }
@@ -242,7 +245,22 @@ pub fn case(ctx: &Ctx, shard: usize, index: u64, rep: &mut Report) {
         gen_flavour_and_size(&mut rng, max, large)
     };
     let cfg = gen_cfg(&mut rng, flavour, w, h);
-    let pic = gen_intra(&mut rng, &cfg);
+    let mut pic = gen_intra(&mut rng, &cfg);
+    // standard PLUSPTYPE intra pictures: header modes that do not concern intra decoding (custom picture
+    // clock with its extended temporal reference, unrestricted-vector indication) may be switched on -
+    // the macroblock data must still be found where the header ends
+    if let Hdr::Std(hd) = &mut pic.hdr {
+        if let Some(pl) = hd.plus.as_mut() {
+            if rng.chance(1, 3) {
+                pl.custom_pcf = rng.chance(2, 3);
+                pl.cpcfc = rng.byte();
+                pl.etr = rng.below(4) as u8;
+                pl.umv = rng.chance(2, 3);
+                pl.uui_unlimited = rng.chance(1, 2);
+                rep.count("std_intra_pictures_with_header_modes");
+            }
+        }
+    }
     let coords = crate::mon::coords("C02", ctx, shard, index);
     // a quarter of the cases: the decoder has already decoded other pictures (of this or another size,
     // intra and predicted) before the picture under test - what an intra picture decodes to must not
@@ -251,6 +269,14 @@ pub fn case(ctx: &Ctx, shard: usize, index: u64, rep: &mut Report) {
     dec.chunk = *rng.pick(&[usize::MAX, usize::MAX, usize::MAX, 1, 2, 5, 64, 1000]);
     if dec.chunk != usize::MAX {
         rep.count("chunked_source_cases");
+    }
+    // ... and may fail one read call with a transient error (the failed decode call is then repeated)
+    if rng.chance(1, 6) {
+        dec.stall = Some((rng.below(1001) as usize, rng.below(3) as u8));
+    }
+    // ... or arrive late: the first few bytes of each picture now, the rest after the call failed for lack of data
+    if dec.stall.is_none() && rng.chance(1, 8) {
+        dec.trickle = Some(1 + rng.below(6) as usize);
     }
     if rng.chance(1, 4) && w * h <= 200 * 200 {
         let n = 1 + rng.below(3);
@@ -304,6 +330,8 @@ pub fn judge_on(rep: &mut Report, mut dec: Dec, pic: &SymPicture, flavour: Flavo
         }
     };
     let out = dec.decode(&bytes);
+    rep.add("calls_repeated_after_transient_source_error", dec.stalls_retried as u64);
+    rep.add("calls_repeated_after_late_delivery", dec.trickles_retried as u64);
     rep.count(&format!("flavour={}", flavour.name()));
     match out {
         Outcome::Panic { msg, loc } => {
